@@ -438,17 +438,27 @@ pub(crate) const fn is_unicast_global_ipv6(ip: &Ipv6Addr) -> bool {
 #[must_use]
 #[inline]
 pub(crate) const fn is_global_ipv6(ip: &Ipv6Addr) -> bool {
-    match ip.segments()[0] & 0x000f {
-        1 // Interface-local scope (same node)
-        | 2 // Link-local scope (same link)
-        | 3 // Subnet-local scope
-        | 4 // Admin-local scope
-        | 5 // Site-local scope (same site)
-        | 8 // Organization-local scope
-        => false,
-        0x0e => true, // Global scope
-        _ => is_unicast_global_ipv6(ip),
+    // An IPv4-mapped address (`::ffff:a.b.c.d`) designates the IPv4 host `a.b.c.d`
+    if let Some(v4) = ip.to_ipv4_mapped() {
+        return is_global_ipv4(&v4);
     }
+
+    // The scope nibble is only meaningful for multicast addresses
+    if ip.is_multicast() {
+        return match ip.segments()[0] & 0x000f {
+            1 // Interface-local scope (same node)
+            | 2 // Link-local scope (same link)
+            | 3 // Subnet-local scope
+            | 4 // Admin-local scope
+            | 5 // Site-local scope (same site)
+            | 8 // Organization-local scope
+            => false,
+            0x0e => true, // Global scope
+            _ => false,
+        };
+    }
+
+    is_unicast_global_ipv6(ip)
 }
 
 /// Returns [`true`] if the address appears to be globally routable.
